@@ -377,12 +377,20 @@ class Parser:
         if not self._current_token.is_a(TokenTypes.NAME):
             return self.token_error('Expected name for assignment, got "{}"')
         dest_name = str(self._current_token)
-        if self._context.has_symbol_typed(dest_name, SymbolType.MACRO):
-            return self.token_error('Attempt to assign to constant "{}"')
+        if not self.assignable(dest_name):
+            return False
         self.next_token()
         if not self._rvalue(dest_name):
             return False
         self._context.add_variable(dest_name)
+        return True
+
+    def assignable(self, name) -> bool:
+        # A macro is a constant: no assignment and no loop may make a
+        # variable of its name.
+        if self._context.has_symbol_typed(name, SymbolType.MACRO):
+            return self.trigger_error(
+                'Attempt to assign to constant "{}"'.format(name))
         return True
 
     def _rvalue(
@@ -515,7 +523,7 @@ class Parser:
         return self._macro_definition(name)
 
     def _already_defined(self, name) -> bool:
-        return (self._context.has_routine(name)
+        return (self._context.routine_exists(name)
                 or not self._context.get_macro(name).undefined)
 
     def _detect_routine_start(self) -> bool:
